@@ -23,6 +23,7 @@ RULE = (
     "easy counts incl. ratios whose rescaling does not round-trip in floating point (1/3, 1/7, 3/53); targets {-0.3, -1e-300, -0.0, 0, 1, "
     "1+2^-52, 1.7, random out-of-range} as scalars, lists and arrays. WX: all multisets of <=3+3 scores over {0,1,2} x easy {0,1,2}^2 x 4 cfg. "
     "Every case is non-trivial (relevant class non-empty); distinct = hash of (scores, easy, cfg, targets)."
+    ' Build-phase additions: easy counts from 2**53 to 1e18, Fortran/transposed/3-d target grids, FraudScores views.'
 )
 ASSUMPTIONS = ["finite scores of moderate magnitude", "rates at a threshold are taken from the object's own rate methods (decided by C01)"]
 EXHAUSTIVE_SUBSPACE = "all multisets of <=3 pos and <=3 neg scores over {0,1,2} (relevant class non-empty), easy {0,1,2}^2, 4 cfg, 6 metrics, 3 methods, targets {-0.3,-0.0,0,1,1.7}"
